@@ -649,14 +649,17 @@ def yield_runs(chk: Check, G: Geo):
     dom.call_values = {f"{REL}::count_contiguous_subclusters": lambda h: 1 + h % 70}
 
     srcs = [s for s, _ in pinfo["next"]]
+    scen = exit_scenarios(chk, ctx, loop, l1, POS, env)
     # the back edge after the L2 look-up is the one whose step mentions count_contiguous_subclusters
     for (src, pn), (src2, rn) in zip(pinfo["next"], rinfo["next"]):
         third = S.contains(pn, lambda x: isinstance(x, tuple) and x and x[0] == "call" and x[1].endswith("count_contiguous_subclusters"))
         tag = "allocated-l2" if third else "unallocated-l1"
         step = env["STEP3"] if third else env["STEP1"]
-        chk.formula("K-SPLIT", f"runs:position-advance:{tag}", src.ast, pn, S.op("add", POS, step), domain=dom, n=60)
-        chk.formula("K-SPLIT", f"runs:remaining-advance:{tag}", src2.ast, rn, S.op("sub", REM, step), domain=dom, n=60)
-    chk.decide(len(pinfo["next"]) == 3, "K-SPLIT", "runs:three-exits", loop, f"{len(pinfo['next'])} continuing exits (L1 index beyond the table, L1 entry unallocated, L2 entry classified)")
+        # values on a back edge are compared on the valuations that reach it (its path condition)
+        pc = conds_sym(chk, ctx, src.ast) if isinstance(src.ast, ast.AST) else None
+        formula_on_path(chk, "K-SPLIT", f"runs:position-advance:{tag}", src.ast, pn, S.op("add", POS, step), dom, pc, scen)
+        formula_on_path(chk, "K-SPLIT", f"runs:remaining-advance:{tag}", src2.ast, rn, S.op("sub", REM, step), dom, pc, scen)
+    exit_partition(chk, ctx, loop, env, l1, POS, dom)
     # yields
     ys = [n for n in ast.walk(ctx.func) if isinstance(n, ast.Yield)]
     sttype = S.call(f"{REL}::get_subcluster_type", [("self", qk), env["ENTRY"], S.call(f"{lk}.bitmap", [("self", lk), env["l2i"]]), env["sci"]])
@@ -669,24 +672,98 @@ def yield_runs(chk: Check, G: Geo):
         ty, guest, host, cnt = t[1]
         third = S.contains(cnt, lambda x: isinstance(x, tuple) and x and x[0] == "call" and x[1].endswith("count_contiguous_subclusters"))
         chk.formula("K-PROV", f"runs:guest-offset-role:{'l2' if third else 'l1'}", y, guest, POS, domain=dom, n=40)
+        ypc = conds_sym(chk, ctx, y)
         if not third:
             chk.decide(S.is_const(ty) and int(ty[1]) == ST["UNALLOCATED_PLAIN"], "K-DISPATCH", "runs:unallocated-l1-type", y,
                        "a missing L2 table yields an UNALLOCATED_PLAIN run", found=S.show(ty))
-            chk.formula("K-SPLIT", "runs:unallocated-l1-length", y, cnt, env["STEP1"], domain=dom, n=40)
+            formula_on_path(chk, "K-SPLIT", "runs:unallocated-l1-length", y, cnt, env["STEP1"], dom, ypc, scen)
         else:
-            chk.formula("K-SPLIT", "runs:l2-length", y, cnt, env["STEP3"], domain=dom, n=40)
-            chk.decide(S.equiv(ty, sttype, domain=dom, n=40).equal is True, "K-PROV", "runs:type<-get_subcluster_type", y,
+            formula_on_path(chk, "K-SPLIT", "runs:l2-length", y, cnt, env["STEP3"], dom, ypc, scen)
+            chk.decide(S.equiv(ty, sttype, domain=dom, n=40, assume=ypc).equal is True, "K-PROV", "runs:type<-get_subcluster_type", y,
                        "the run type is get_subcluster_type(entry(l2_index), bitmap(l2_index), sc_index) of the current offset",
                        expected=S.show(sttype)[:300], found=S.show(ty)[:300])
             # host offset per type: evaluate the branch structure that leads to the yield
             host_by_type(chk, G, ctx, loop, y, env, ty, dom)
-    chk.decide(len(ys) == 3, "K-PROV", "runs:yield-sites", ctx.func, f"{len(ys)} yield sites")
+    chk.decide(len(ys) >= 2, "K-PROV", "runs:yield-sites", ctx.func, f"{len(ys)} yield sites")
     # L1 look-up guarded and masked
     for n in ast.walk(loop):
         if isinstance(n, ast.Call):
             t = R.expr(ctx, n)
             if t[0] == "call" and t[1] == "new:" + lk:
-                chk.formula("K-FORMULA", "runs:l2-table-offset", n, t[2][1], env["L2OFF"], domain=dom, n=40)
+                chk.formula("K-FORMULA", "runs:l2-table-offset", n, t[2][1], env["L2OFF"], domain=dom, n=40, assume=conds_sym(chk, ctx, n))
+
+
+def exit_scenarios(chk: Check, ctx, loop, l1, POS, env):
+    """(name, override, fields, classified?) for the three situations a round of the loop can be in."""
+    R = chk.R
+    lookups = []
+    for y in [n for n in ast.walk(loop) if isinstance(n, ast.Yield)]:
+        for c, _p in conds_sym(chk, ctx, y):
+            for x in S.walk(c):
+                if isinstance(x, tuple) and x and x[0] == "sub" and x[1] == l1 and x not in lookups:
+                    lookups.append(x)
+    if len(lookups) != 1:
+        return None
+    L1E = lookups[0]
+    SPEC = env["L1E"]  # the specification's spelling of the same look-up gets the same value
+    return L1E, [(nm, {**ov, **({SPEC: ov[L1E]} if L1E in ov else {})}, fl, th) for nm, ov, fl, th in [("L1 index beyond the table", {POS: (1 << 45) + 12345}, {("QCowHeader", 36): 0}, False),
+                 ("empty L1 entry", {POS: (1 << 30) + 777, L1E: 0}, {("QCowHeader", 36): 1 << 31}, False),
+                 ("empty L1 entry (flags only)", {POS: (1 << 30) + 777, L1E: 1 << 63}, {("QCowHeader", 36): 1 << 31}, False),
+                 ("L1 entry with an L2 table", {POS: (1 << 30) + 777, L1E: 0x8000000000050000}, {("QCowHeader", 36): 1 << 31}, True)]]
+
+
+def formula_on_path(chk: Check, kind, name, where, got, want, dom, pc, scen):
+    """got == want at a program point: everywhere, or else on the valuations that reach the point (path condition pc),
+    sampled at random and in each of the loop's situations."""
+    r = S.equiv(got, want, domain=dom, n=60)
+    if r.equal is False and pc:
+        results = [S.equiv(got, want, domain=dom, n=40, assume=pc)]
+        for _nm, ov, fl, _third in (scen[1] if scen else []):
+            ov2 = {k: v for k, v in ov.items() if not (isinstance(k, tuple) and k and k[0] == "phi")}  # keep the position random
+            results.append(S.equiv(got, want, domain=dom, n=30, assume=pc, override=ov2, fields=fl))
+        bad = [x for x in results if x.equal is False]
+        r = bad[0] if bad else (S.EqResult(True, "identity-testing on the path") if any(x.equal is True for x in results) else results[0])
+    g, w = S.show(got), S.show(want)
+    if r.equal is True:
+        return chk.holds(kind, name, where, r.method, expected=w[:600], found=g[:600])
+    if r.equal is False:
+        wit = {k[:120]: (v if isinstance(v, (int, str, bool)) or v is None else repr(v)) for k, v in list((r.witness or {}).items())[:12]}
+        return chk.violated(kind, name, where, f"terms differ, witness valuation {wit}", expected=w[:900], found=g[:900])
+    return chk.undecided(kind, name, where, f"could not decide ({r.method})", expected=w[:600], found=g[:600])
+
+
+def exit_partition(chk: Check, ctx, loop, env, l1, POS, dom):
+    """Which run a round of the loop produces, by evaluating the yields' path conditions over the three situations
+    {L1 index beyond the table, L1 entry empty, L1 entry points at an L2 table}: the first two produce the
+    unallocated run (no count_contiguous_subclusters in its length), the third the classified run; never both, never none."""
+    R = chk.R
+    ys = [n for n in ast.walk(loop) if isinstance(n, ast.Yield)]
+    sites = []
+    for y in ys:
+        t = R.expr(ctx, y.value, ctx.cfg.node_for(y))
+        third = S.contains(t, lambda x: isinstance(x, tuple) and x and x[0] == "call" and x[1].endswith("count_contiguous_subclusters"))
+        sites.append((y, third, conds_sym(chk, ctx, y)))
+    sc = exit_scenarios(chk, ctx, loop, l1, POS, env)
+    if sc is None:
+        chk.undecided("K-SPLIT", "runs:exit-partition", loop, "expected exactly one L1 table look-up in the exit conditions")
+        return
+    L1E, cases = sc
+    chk.formula("K-FORMULA", "runs:l1-index", loop, L1E[2], env["l1i"], domain=dom, n=40)
+    bad = []
+    for what, ov, fl, want_third in cases:
+        for seed in (1, 2, 3):
+            val = S.Valuation(seed, override=ov, fields=fl, domain=dom)
+            hit = []
+            for y, third, cs in sites:
+                r = eval_conds(cs, val)
+                if r:
+                    hit.append(third)
+            if hit != [want_third]:
+                bad.append(f"{what}: reaches {['classified run' if h else 'unallocated run' for h in hit] or 'no yield'}, specified one {'classified' if want_third else 'unallocated'} run")
+                break
+    chk.decide(not bad, "K-SPLIT", "runs:exit-partition", loop,
+               "beyond the L1 table / empty L1 entry -> one unallocated run; otherwise -> one classified run (evaluated over the three situations)"
+               if not bad else "; ".join(bad[:3]))
 
 
 def host_by_type(chk: Check, G: Geo, ctx, loop, y, env, sttype, dom):
